@@ -22,3 +22,4 @@ def run(ck):
     pipeline.factor_rule(ck, "C01.R3")
     routes.carrier_types(ck, "C01.R6")               # get_val() casts to the value type: it must not be a narrow NumPy dtype
     fresh.no_hidden_state(ck, "C20.R8")                  # results depend on the documented state only (no caches / memos)
+    fresh.constructor_state(ck, "C20.R2")
